@@ -27,7 +27,7 @@ Chk(name, cond, line, detail) == IF cond THEN 0 ELSE Fail(name, line, detail)
 \* ---------------------------------------------------------------- state
 NoSess == [ech |-> -1, pch |-> -1, st |-> "none"]
 NewSess == [ech |-> -1, pch |-> -1,
-            eBegun |-> FALSE, pBegun |-> FALSE, eEnded |-> FALSE, pEnded |-> FALSE, pEndErr |-> "", endTold |-> FALSE, pEndedBeforeE |-> FALSE, name |-> "",
+            eBegun |-> FALSE, pBegun |-> FALSE, eEnded |-> FALSE, pEnded |-> FALSE, pEndErr |-> "", endTold |-> FALSE, eEndSpont |-> FALSE, pEndedBeforeE |-> FALSE, name |-> "",
             initOut |-> 0, framesOut |-> 0, delsOut |-> 0, lastDid |-> -1,
             peerNII |-> 0, peerWin |-> 0, devWin |-> 0,          \* window last advertised by the peer / as the code computes it
             pNoi |-> 0, framesInSince |-> 0, pBeginSeen |-> FALSE,
@@ -36,10 +36,10 @@ NewLink == [ech |-> -1, pch |-> -1, eh |-> -1, ph |-> -1, name |-> "", eutSender
             eAtt |-> FALSE, pAtt |-> FALSE, eDet |-> FALSE, pDet |-> FALSE, pClosed |-> FALSE, pDetErr |-> "", touched |-> FALSE, pDetFirst |-> FALSE, errTold |-> FALSE,
             snd |-> 2, rcv |-> 0, mmsP |-> -1,
             \* sender role (EUT sends)
-            idc |-> 0, dcS |-> 0, fBase |-> 0, fN |-> 0, fWired |-> 0, fSends |-> 0, owed |-> 0, limit |-> -1, drainOwed |-> FALSE, echoOwed |-> FALSE, inDel |-> FALSE, curDid |-> -1,
+            idc |-> 0, dcS |-> 0, fBase |-> 0, fN |-> 0, fWired |-> 0, fSends |-> 0, owed |-> 0, limit |-> -1, limRel |-> -1, drainOwed |-> FALSE, echoOwed |-> FALSE, inDel |-> FALSE, curDid |-> -1,
             sendsIssued |-> 0, delsDone |-> 0, blockedBy |-> "none", lastM |-> -1, cancels |-> 0,
             \* receiver role (EUT receives)
-            dcR |-> 0, dcGot |-> 0, lcR |-> 0, limitR |-> 0, limitMax |-> 0, idcP |-> 0, accepted |-> 0, broken |-> FALSE, aborts |-> 0, cfgActive |-> FALSE, creditMode |-> -2, autoAcc |-> FALSE, expectLc |-> -1, appLc |-> -1, sflowGap |-> FALSE, dispN |-> 1, held |-> 0, pInDel |-> FALSE, appDrained |-> FALSE,
+            dcR |-> 0, dcGot |-> 0, lcR |-> 0, limitR |-> 0, limitMax |-> 0, idcP |-> 0, accepted |-> 0, broken |-> FALSE, aborts |-> 0, cfgActive |-> FALSE, creditMode |-> -2, autoAcc |-> FALSE, expectLc |-> -1, appLc |-> -1, sflowGap |-> FALSE, dispN |-> 1, held |-> 0, pInDel |-> FALSE, appDrained |-> FALSE, cutQueued |-> FALSE, detQueued |-> FALSE,
             inq |-> <<>>,          \* incoming deliveries not yet handed to the application
             got |-> <<>>,          \* deliveries handed to the application: [did, m, app (state chosen by the application or "none"), presettled]
             \* settlement
@@ -106,6 +106,9 @@ H_EClose(s, r, l) == R([s EXCEPT !.ecloses = @ + 1, !.ecloseErr = (r.f.err # "")
                        \* the endpoint closes the connection with an error of its own only for a reason: a frame it may not accept,
                        \* undecodable input, an idle time-out, or because the application asked for it
                      + Chk("C12_NoSpontaneousError", r.f.err = "" \/ s.illegal \/ s.garbage \/ s.noise \/ s.appCloseErr \/ s.lidle > 0 \/ s.pclose \/ s.peof, l, r.f.err)
+                       \* (deliveries that had arrived, or were arriving, on a receiving link are thereby lost to the application)
+                     + Chk("C10_NoSpuriousError", r.f.err = "" \/ s.illegal \/ s.garbage \/ s.noise \/ s.appCloseErr \/ s.lidle > 0 \/ s.pclose \/ s.peof
+                                                  \/ ~\E k \in DOMAIN s.ls : ~s.ls[k].eutSender /\ LinkLiveE(s.ls[k]) /\ (s.ls[k].inq # <<>> \/ s.ls[k].pInDel), l, "connection-closed-by-endpoint")
                        \* the peer's close is answered only after what had been handed over before has been written
                      + Chk("C12_FlushBeforeClose", ~(s.pclose /\ s.ecloses = 0 /\ ~s.illegal /\ ~s.garbage /\ ~s.appTeardown /\ r.f.err = "")
                                                    \/ \A k \in DOMAIN s.ls : ~(s.ls[k].eutSender /\ s.ls[k].pAtt /\ ~s.ls[k].pDet /\ ~s.ls[k].eDet
@@ -130,8 +133,16 @@ H_EEnd(s, r, l) ==
   ELSE LET fl == Chk("C13_Flush", ~(ConnUp(s) /\ \E k \in DOMAIN s.ls : s.ls[k].ech = r.ch /\ Stuck(s, k) = "stuck"), l, "end")
                  \* a cancelled call leaves the session usable: the endpoint does not end it with an error of its own making
                  + Chk("C16_LaterIntact", r.f.err = "" \/ s.illegal \/ s.garbage \/ s.appTeardown \/ s.ss[i].pEnded
-                                          \/ ~\E k \in DOMAIN s.ls : s.ls[k].ech = r.ch /\ s.ls[k].cancels > 0, l, "session-ended") IN
-       RF(fl, [s EXCEPT !.ss[i].eEnded = TRUE,
+                                          \/ ~\E k \in DOMAIN s.ls : s.ls[k].ech = r.ch /\ s.ls[k].cancels > 0, l, "session-ended")
+                 \* the endpoint ends a session with an error of its own only for a reason: the peer broke a rule, sent something undecodable,
+                 \* contradicted itself or overran its credit on one of the session's links, has ended or closed itself, or the application asked for it
+                 reason == s.illegal \/ s.garbage \/ s.noise \/ s.appTeardown \/ s.badAttach # "-" \/ s.ss[i].pEnded \/ s.pclose \/ s.peof \/ s.timedOut
+                           \/ \E k \in DOMAIN s.ls : s.ls[k].ech = r.ch /\ (s.ls[k].broken \/ \E n \in DOMAIN s.ls[k].inq : s.ls[k].inq[n].contra \/ ~s.ls[k].inq[n].within)
+                 \* (deliveries that had arrived, or were arriving, on a receiving link of that session are thereby lost to the application)
+                 sp == Chk("C13_NoSpontaneousEnd", r.f.err = "" \/ reason, l, r.f.err)
+                     + Chk("C10_NoSpuriousError", r.f.err = "" \/ reason \/ ~\E k \in DOMAIN s.ls : s.ls[k].ech = r.ch /\ ~s.ls[k].eutSender /\ LinkLiveE(s.ls[k]) /\ (s.ls[k].inq # <<>> \/ s.ls[k].pInDel),
+                           l, "session-ended-by-endpoint") IN
+       RF(fl + sp, [s EXCEPT !.ss[i].eEnded = TRUE, !.ss[i].eEndSpont = (r.f.err # "" /\ ~reason),
                    !.ls = [k \in DOMAIN s.ls |-> IF s.ls[k].ech = r.ch /\ LinkLiveE(s.ls[k]) THEN [s.ls[k] EXCEPT !.eDet = TRUE] ELSE s.ls[k]]])
 
 H_EAttach(s, r, l) ==
@@ -148,6 +159,7 @@ H_EAttach(s, r, l) ==
                              !.creditMode = IF ~eutSender /\ ci > 0 THEN s.pendCfg[ci].credit ELSE @,
                              !.autoAcc = IF ~eutSender /\ ci > 0 THEN s.pendCfg[ci].autoAcc ELSE @,
                              !.idc = IF eutSender /\ f.idc >= 0 THEN f.idc ELSE @, !.dcS = IF eutSender /\ f.idc >= 0 THEN f.idc ELSE @, !.fBase = IF eutSender /\ f.idc >= 0 THEN f.idc ELSE @,
+                             !.limit = IF eutSender /\ f.idc >= 0 /\ base.limRel >= 0 THEN f.idc + base.limRel ELSE @,
                              !.snd = IF ans > 0 THEN @ ELSE f.snd, !.rcv = IF ans > 0 THEN @ ELSE f.rcv]
        IN R([s EXCEPT !.ls = IF ans > 0 THEN [s.ls EXCEPT ![ans] = y] ELSE Append(s.ls, y)],
               Chk("C11_HandleUnique", ~dupH, l, "") + Chk("C11_NameOnce", ~dupN, l, f.name)
@@ -156,7 +168,8 @@ H_EAttach(s, r, l) ==
 H_EDetach(s, r, l) ==
   LET k == LinkByE(s, r.ch, r.f.h) IN
   IF k = 0 \/ ~LinkLiveE(s.ls[k]) THEN R(s, Fail("C13_DetachAtMostOncePerAttach", l, ""))
-  ELSE R([s EXCEPT !.ls[k].eDet = TRUE],
+  \* detQueued: deliveries the application had submitted are not (completely) on the wire when the detach is written
+  ELSE R([s EXCEPT !.ls[k].eDet = TRUE, !.ls[k].detQueued = (s.ls[k].eutSender /\ (s.ls[k].inDel \/ \E n \in DOMAIN s.ls[k].sendq : s.ls[k].sendq[n].did = -1))],
          Chk("C13_DetachInKind", ~s.ls[k].pDet \/ ~s.ls[k].pClosed \/ r.f.closed, l, "")
          \* what the application had queued on the link and could be sent goes out before the detach
        + Chk("C13_Flush", ~(ConnUp(s) /\ Stuck(s, k) = "stuck"), l, "detach"))
@@ -168,7 +181,8 @@ H_ETransfer(s, r, l) ==
   LET f == r.f i == SessByE(s, r.ch) IN
   IF i = 0 \/ ~LiveE(s.ss[i]) THEN R(s, Fail("C13_NothingAfterEnd", l, "transfer")) ELSE
   LET k == ELink(s, r) IN
-  IF k = 0 THEN R([s EXCEPT !.ss[i].framesOut = @ + 1], Fail("C13_NothingAfterDetach", l, "transfer")) ELSE
+  IF k = 0 THEN R([s EXCEPT !.ss[i].framesOut = @ + 1],
+                  Fail("C13_NothingAfterDetach", l, IF LinkByE(s, r.ch, r.f.h) > 0 /\ s.ls[LinkByE(s, r.ch, r.f.h)].detQueued THEN "transfer:queued_at_detach" ELSE "transfer")) ELSE
   LET x == s.ss[i] y == s.ls[k]
       id == x.initOut + x.framesOut
       \* a frame with another delivery-id than the delivery in progress starts a new delivery and leaves the old one unfinished
@@ -192,9 +206,11 @@ H_ETransfer(s, r, l) ==
        + Chk("C11_ContinuationId", first \/ f.did = -1 \/ f.did = y.curDid, l, "")
        + Chk(IF y.cancels > 0 THEN "C16_NeverPartial" ELSE "C11_DeliveryAbandoned", ~abandoned, l, IF y.cancels > 0 /\ s.roomy THEN "roomy" ELSE "")
        + Chk("C08_SenderRole", y.eutSender, l, "")
+       \* The count the endpoint has reached is at least what its last flow stated plus the deliveries started since beyond those that were
+       \* already waiting then (they may have been counted in that flow).
        \* (a delivery that had credit while it was waiting inside the endpoint -- for the session window or a full channel -- has taken
        \*  that credit; a later flow that lowers the limit does not call it back, exactly as for a transfer in flight)
-       + Chk("C08_WithinCredit", ~first \/ (y.limit >= 0 /\ (y.dcS < y.limit \/ y.owed > 0)), l, "")
+       + Chk("C08_WithinCredit", ~first \/ (y.limit >= 0 /\ (y.fBase + Max(0, y.fWired - y.fN) < y.limit \/ y.owed > 0)), l, "")
        + Chk("C01_PayloadContinuity", r.pl.ok, l, "")
        \* deliveries leave in the order the application submitted them, none twice (message numbers grow per link)
        + Chk("C07_Fifo", r.pl.ok /\ (~first \/ r.pl.m > y.lastM), l, "")
@@ -226,7 +242,9 @@ H_EFlow(s, r, l) ==
   ELSE \* the delivery-count a receiver reports is the sender's count as learnt, advanced by the deliveries it has taken in:
        \* at least those already handed to the application, at most those that have arrived (a link endpoint
        \* processes arrivals when the application drives it)
-       R(SetL(s, k, [y EXCEPT !.lcR = f.lc, !.limitR = f.dc + Max(f.lc, 0), !.limitMax = Max(@, f.dc + Max(f.lc, 0)), !.expectLc = -1]),
+       \* cutQueued: the flow states a limit below what has already arrived and waits for recv() (credit lowered over queued deliveries)
+       R(SetL(s, k, [y EXCEPT !.lcR = f.lc, !.limitR = f.dc + Max(f.lc, 0), !.limitMax = Max(@, f.dc + Max(f.lc, 0)), !.expectLc = -1,
+                              !.cutQueued = (@ \/ (y.dcR > y.dcGot /\ f.dc + Max(f.lc, 0) < y.dcR))]),
          fs + Chk("C09_FlowCount", f.dc >= y.dcGot /\ f.dc <= y.dcR, l, IF y.sflowGap THEN "after_sender_flow" ELSE "")
             + Chk("C09_FlowCredit", y.expectLc < 0 \/ f.lc = y.expectLc, l, "")
             + Chk("C09_FlowCreditAuto", ~y.cfgActive \/ y.creditMode < 0 \/ y.expectLc >= 0 \/ f.drain \/ f.lc <= Max(y.creditMode, y.appLc), l, ""))   \* (credit the application raised itself may be re-announced)
@@ -354,7 +372,9 @@ H_PFlow(s, r, l) ==
   LET y == s.ls[k] IN
   IF y.eutSender
   THEN LET lim == (IF f.dc >= 0 THEN f.dc ELSE y.idc) + Max(f.lc, 0) IN
-       R(SetL(s2, k, [y EXCEPT !.limit = lim, !.drainOwed = f.drain, !.echoOwed = (@ \/ f.echo),
+       \* (limRel: the flow left the delivery-count unset, so its limit is relative to the sender's initial delivery-count -- which, on a link the
+       \*  peer started, the endpoint states only in its answering attach)
+       R(SetL(s2, k, [y EXCEPT !.limit = lim, !.limRel = IF f.dc >= 0 THEN -1 ELSE Max(f.lc, 0), !.drainOwed = f.drain, !.echoOwed = (@ \/ f.echo),
                                 !.owed = Max(@, Min(Cardinality({n \in DOMAIN y.sendq : y.sendq[n].did = -1}), Max(0, lim - y.dcS)))]), 0)
   \* the sender states its delivery-count: everything it has sent has arrived (dcR); deliveries that have arrived but have not been
   \* handed to the application yet stay that many behind (dcGot).  sflowGap remembers that such a flow overtook queued deliveries.
@@ -452,15 +472,25 @@ H_RecvRet(s, r, l) ==
   IF ~r.res.ok
   THEN \* an error result consumes nothing the observer can name; a contradictory or over-limit delivery is dropped with it
        \* (a cancelled call is not an error of the link)
-       R(SetL(s, k, IF r.res.class = "Cancelled" THEN y ELSE [y EXCEPT !.inq = SelectSeq(@, LAMBDA e : ~e.contra /\ ~(e.complete /\ e.aborted)), !.broken = TRUE, !.errTold = TRUE]),
+       \* (a delivery refused for lack of credit is gone as well: the first one waiting)
+       R(SetL(s, k, IF r.res.class = "Cancelled" THEN y
+                    ELSE LET q == SelectSeq(y.inq, LAMBDA e : ~e.contra /\ ~(e.complete /\ e.aborted))
+                             jj == FirstIdx(q, Eligible)
+                         IN [y EXCEPT !.inq = IF r.res.class = "TransferLimitExceeded" /\ jj > 0 THEN SubSeq(q, 1, jj - 1) \o SubSeq(q, jj + 1, Len(q)) ELSE q,
+                                      !.broken = TRUE, !.errTold = TRUE]),
          Chk("C13_PeerError", ~(y.pDet /\ y.pDetFirst /\ y.pDetErr # "" /\ ~y.errTold) \/ r.res.cond = y.pDetErr, l, "recv")
          \* recv fails only for a reason: the connection / session / link has stopped or is stopping, the call was cancelled,
          \* or the peer's transfers were contradictory, aborted or beyond the credit issued
-       + Chk("C10_NoSpuriousError", \/ ~ConnUp(s) \/ s.garbage \/ y.pDet \/ y.eDet \/ ~y.pAtt \/ y.broken \/ r.res.class = "Cancelled" \/ s.appTeardown
-                                    \/ SessByE(s, y.ech) = 0 \/ ~LiveE(s.ss[SessByE(s, y.ech)]) \/ s.ss[SessByE(s, y.ech)].pEnded
+       \* (a session the endpoint itself ended with an error it had no reason for is no excuse)
+       + Chk("C10_NoSpuriousError", \/ ~ConnUp(s) \/ s.garbage \/ y.pDet \/ ~y.pAtt \/ y.broken \/ r.res.class = "Cancelled" \/ s.appTeardown
+                                    \/ SessByE(s, y.ech) = 0 \/ s.ss[SessByE(s, y.ech)].pEnded
+                                    \/ ((y.eDet \/ ~LiveE(s.ss[SessByE(s, y.ech)])) /\ ~s.ss[SessByE(s, y.ech)].eEndSpont)
                                     \/ \E n \in DOMAIN y.inq : y.inq[n].contra \/ y.inq[n].aborted \/ ~y.inq[n].within, l,
                                     \* (a refusal for lack of credit after a sender's flow overtook queued deliveries is the double count of the open C09 finding)
-                                    IF y.sflowGap /\ r.res.class = "TransferLimitExceeded" THEN "after_sender_flow" ELSE r.res.class))
+                                    IF SessByE(s, y.ech) > 0 /\ s.ss[SessByE(s, y.ech)].eEndSpont THEN "session-ended-by-endpoint"
+                                    ELSE IF y.sflowGap /\ r.res.class = "TransferLimitExceeded" THEN "after_sender_flow"
+                                    \* (the same late accounting: credit lowered by the application while deliveries sent under the old credit wait for recv())
+                                    ELSE IF y.cutQueued /\ r.res.class = "TransferLimitExceeded" THEN "after_credit_cut" ELSE r.res.class))
   ELSE IF j = 0 THEN R(s, Fail("C10_NotBefore", l, "") + (IF \E n \in DOMAIN y.inq : y.inq[n].m = r.res.m /\ y.inq[n].contra THEN Fail("C10_Contradiction", l, "") ELSE 0)
                                 + (IF \E n \in DOMAIN y.inq : y.inq[n].m = r.res.m /\ y.inq[n].aborted THEN Fail("C10_Abort", l, "") ELSE 0))
   ELSE LET e == y.inq[j] IN
@@ -646,7 +676,12 @@ Step(s, r, l) ==
       \* having closed with an error the endpoint discards what still arrives and keeps the transport until the peer's close (or the
       \* peer's end of stream) has arrived
       [] r.ev = "EEof" -> R([s EXCEPT !.eeof = TRUE, !.oblClose = FALSE, !.shutAfterIllegal = (@ \/ (s.illegal /\ s.ecloses = 0))],
-                            Chk("C12_WaitsForPeerClose", s.ecloses = 0 \/ ~s.ecloseErr \/ ~s.popen \/ s.pclose \/ s.pcloseHeard \/ s.peof \/ s.garbage \/ s.timedOut \/ s.lidle > 0, l, ""))
+                            Chk("C12_WaitsForPeerClose", s.ecloses = 0 \/ ~s.ecloseErr \/ ~s.popen \/ s.pclose \/ s.pcloseHeard \/ s.peof \/ s.garbage \/ s.timedOut \/ s.lidle > 0, l, "")
+                            \* the endpoint hangs up on an open connection (no close exchanged) only for a reason; deliveries that had arrived, or were
+                            \* arriving, on a receiving link are lost to the application with it
+                          + Chk("C12_NoSpontaneousError", s.ecloses > 0 \/ ~ConnUp(s) \/ s.illegal \/ s.garbage \/ s.noise \/ s.appTeardown \/ s.lidle > 0 \/ s.timedOut, l, "eof")
+                          + Chk("C10_NoSpuriousError", s.ecloses > 0 \/ ~ConnUp(s) \/ s.illegal \/ s.garbage \/ s.noise \/ s.appTeardown \/ s.lidle > 0 \/ s.timedOut
+                                                       \/ ~\E k \in DOMAIN s.ls : ~s.ls[k].eutSender /\ LinkLiveE(s.ls[k]) /\ (s.ls[k].inq # <<>> \/ s.ls[k].pInDel), l, "transport-dropped-by-endpoint"))
       [] r.ev = "EGarbage" -> R(s, Fail("C06_Garbage", l, ""))
       [] r.ev = "PHeader" -> H_PHeader(s, r, l)
       [] r.ev = "PFrame" -> H_PFrame(s, r, l)
